@@ -149,6 +149,15 @@ pub fn prepare(tier: crate::explore::Tier, seed: u64, dir: &str) {
         let a: MergeSkaArray<u64> = real::forge_array(&t);
         if a.save(&p).is_ok() {
             add(label, &p);
+            if nrows < 300_000 {
+                // the same table as `ska weed --filter-ambig-as-missing --ambig-mask` (no weed file) writes it: another
+                // save path, other stored counts
+                let w = scratch::path("c19_manyrows_weeded.skf");
+                let args = ops::WeedArgs { weed_file: None, reverse: false, min_freq: 0.0, ambig_missing: true, filt: crate::refmodel::Filt::NoFilter, mask: true, nogap: false };
+                if ops::op_weed(&p, &args, &w).is_ok() {
+                    add("weeded many rows", &w);
+                }
+            }
         }
     }
     if ctx.tier.thorough() {
@@ -180,7 +189,16 @@ fn check_image(rep: &mut Report, s: &Subject, image: &[u8], fault: &str, path: &
                     rep.corner("accepted_identical");
                     rep.corner(&format!("accepted_identical[{}]", s.name));
                 }
-                _ => rep.corner("accepted_identical_content_but_hidden_field_differs"),
+                _ => {
+                    // what the public API shows is the same, but the stored state behind it (per-row counts, version,
+                    // width) is not: the damaged file is read as different data all the same
+                    rep.corner("accepted_identical_content_but_hidden_field_differs");
+                    rep.violate(
+                        format!("{} {fault} hidden", s.name),
+                        format!("{} with {fault}: accepted; k, names, k-mers and bases read the same but the stored per-row counts / hidden fields differ from the undamaged file", s.name),
+                        json!({"subject": s.name, "fault": fault, "hidden": true}),
+                    );
+                }
             }
             true
         }
@@ -282,7 +300,8 @@ pub fn run(ctx: &Ctx, rep: &mut Report) {
                 if rows_subject {
                     // one bit of the chunk type, of the length, of the checksum, and two inside the chunk
                     let next = starts.get(ci + 1).copied().unwrap_or(len);
-                    for (pos, bit) in [(*st, 0u8), (st + 1, (ci % 8) as u8), (st + 5, ((ci + 3) % 8) as u8), (st + 8 + (next - st - 8) / 3, (ci % 8) as u8), (next - 1, ((ci + 5) % 8) as u8)] {
+                    // (bit 7 of the type byte turns a data chunk into a reserved skippable one: the reader drops 64 KiB)
+                    for (pos, bit) in [(*st, 0u8), (*st, 7u8), (st + 1, (ci % 8) as u8), (st + 5, ((ci + 3) % 8) as u8), (st + 8 + (next - st - 8) / 3, (ci % 8) as u8), (next - 1, ((ci + 5) % 8) as u8)] {
                         if pos < len {
                             flips.push((pos, bit));
                         }
